@@ -1,7 +1,7 @@
 (** C03 — writes are accepted only while a quorum of replicas is RW; otherwise read-only.
     Model: Ctl (controller event machine).  Only statements here. *)
 From Coq Require Import List ZArith Bool Arith.
-From Jiva Require Import Ctl.Model Ctl.Proofs.
+From Jiva Require Import Ctl.Model Ctl.Corr Ctl.Oracles Ctl.Proofs Ctl.RfConst Ctl.OracleProofs.
 Import ListNotations.
 
 (** After every sequence of register / start / add / verify / remove / set-mode / monitor / I/O /
@@ -25,7 +25,19 @@ Theorem C03_gate_opens_with_quorum : forall s e, status_ok s -> is_mut_io e = tr
   (quorum (rf s) <= count_rw (replicas s))%nat -> snd (fst (step s e)) <> RRefused.
 Proof. exact gate_opens. Qed.
 
+(** the configured replication factor is never changed by any event *)
+Theorem C03_rf_constant : forall s e, rf (fst (fst (step s e))) = rf s.
+Proof. exact rf_step. Qed.
+
+(** the executable statement of C03 that the correspondence run evaluates on the implementation's
+    observations accepts every trace of the model (histories of single requests) *)
+Theorem C03_oracle_holds_on_model : forall es rf0 n w0, (1 <= rf0)%nat ->
+  walk (lift (c03_step rf0) (c03_pair rf0)) 0 (obs0 rf0 n w0) (map One es) (trace n (init rf0 w0) (map One es)) = None.
+Proof. exact c03_oracle_model_init. Qed.
+
 Print Assumptions C03_status_always_reevaluated.
+Print Assumptions C03_rf_constant.
+Print Assumptions C03_oracle_holds_on_model.
 Print Assumptions C03_status_preserved_by_every_event.
 Print Assumptions C03_gate_refuses_without_quorum.
 Print Assumptions C03_gate_opens_with_quorum.
